@@ -137,6 +137,9 @@ def _unlimit_stack():
             pass
 
 
+X_SAMPLES = {}      # model name -> [(input ints, output ints)] seen by run_driver in this process
+
+
 def run_driver(lines):
     lines = list(lines)
     if not lines:
@@ -145,7 +148,56 @@ def run_driver(lines):
     res = []
     for o in outs:
         res.extend(o)
+    # keep a few generic-model cases for the in-Coq cross-check of extraction
+    step = max(1, len(lines) // 25)
+    for l, o in list(zip(lines, res))[::step]:
+        if l.startswith('X ') and len(l) < 1500 and len(o) < 1500 and not o.startswith(('ERR', 'BAD')):
+            parts = l.split(' ')
+            X_SAMPLES.setdefault(parts[1], [])
+            if len(X_SAMPLES[parts[1]]) < 40:
+                try:
+                    X_SAMPLES[parts[1]].append(([int(x) for x in parts[2:] if x != ''],
+                                                [int(x) for x in o.split(' ') if x != '']))
+                except ValueError:
+                    pass
     return res
+
+
+def in_coq_x_sample(prop):
+    """Evaluate the recorded generic-model cases inside Coq (vm_compute):
+    run_<m> input = output as the extracted driver printed it."""
+    r = Result('in-Coq-sample-X')
+    if not X_SAMPLES:
+        return None
+
+    def zl(l):
+        return '[' + '; '.join('(%d)%%Z' % x for x in l) + ']'
+    lines = ['From Coq Require Import List ZArith.',
+             'From TexModel Require Import CLO Buffer Args Views Edit.',
+             'Import ListNotations.', '']
+    n = 0
+    for m, cases in sorted(X_SAMPLES.items()):
+        for i, o in cases:
+            lines.append('Goal run_%s %s = %s. Proof. vm_compute. reflexivity. Qed.' % (m, zl(i), zl(o)))
+            n += 1
+    tmpd = tempfile.mkdtemp(prefix='verif-incoqx-')
+    try:
+        f = os.path.join(tmpd, 'CasesX.v')
+        with open(f, 'w') as fh:
+            fh.write('\n'.join(lines) + '\n')
+        rc, out = sh('timeout 900 coqc -Q %s TexModel %s' % (os.path.join(COQ, 'theories', 'Model'), f),
+                     cwd=tmpd, timeout=1000)
+        r.evaluations = n
+        r.nontrivial = set(range(n))
+        r.samples = lines[4:6]
+        if rc != 0:
+            m = re.search(r'line (\d+)', out)
+            bad = lines[int(m.group(1)) - 1] if m else out[-300:]
+            r.fail(Failure(prop, 'in-Coq-vs-extracted', bad[:600], out[-400:], 'vm_compute agrees with the driver',
+                           note='extraction / driver disagree with evaluation inside Coq (generic model)'))
+    finally:
+        shutil.rmtree(tmpd, ignore_errors=True)
+    return r
 
 
 # ---------------------------------------------------------- implementation
